@@ -42,7 +42,12 @@ const (
 	fDash           = "dash"
 	fDashFirst      = "dash-first" // `-` followed by path arguments
 	fNone           = "none"
+	fGlobLiteral    = "literal-name-with-pattern-characters" // an existing file t/x[1].log named literally
+	fGlobExt        = "glob-by-extension"                    // t/*.log t/e?.gz
 )
+
+const literalName = "t/x[1].log"
+const literalContent = "lit 1\nb 2\n"
 
 const histoRegex = `^(\w+) (\S+)$`
 
@@ -361,6 +366,41 @@ func expect(t *tree, c Case) *expectation {
 		}
 		if len(ns) == 0 {
 			exp.exitAmbiguous = true
+		}
+	case fGlobLiteral:
+		// "Each path argument ... is opened and read exactly once per mention":
+		// the argument names an existing file; that its name is also a pattern
+		// (which matches x1.log, not the file itself) does not make it less of
+		// a path argument
+		if err := os.WriteFile(filepath.Join(t.dir, literalName), []byte(literalContent), 0o644); err != nil {
+			panic(err)
+		}
+		exp.cliArgs = append(append([]string{}, names...), literalName)
+		for _, n := range names {
+			addPath(n, false)
+		}
+		exp.inputs = append(exp.inputs, fileInput(t, literalName, "literal-name", c.Gunzip))
+	case fGlobExt:
+		// "each glob expansion": the existing entries with that extension
+		exp.cliArgs = []string{"t/*.log", "t/e?.gz"}
+		des, _ := os.ReadDir(filepath.Join(t.dir, "t"))
+		var logs, gzs []string
+		for _, de := range des {
+			n := de.Name()
+			if strings.HasSuffix(n, ".log") {
+				logs = append(logs, "t/"+n)
+			}
+			if strings.HasSuffix(n, ".gz") && len(n) == len("e0.gz") && n[0] == 'e' {
+				gzs = append(gzs, "t/"+n)
+			}
+		}
+		sort.Strings(logs)
+		sort.Strings(gzs)
+		if len(logs) == 0 || len(gzs) == 0 {
+			panic("glob-by-extension needs a .log and a .gz entry (formApplies)")
+		}
+		for _, n := range append(logs, gzs...) {
+			addPath(n, false)
 		}
 	case fDashFirst:
 		// "`-` ... reads standard input under the name <stdin>" and "Each path
